@@ -327,6 +327,32 @@ impl VisitMut for Rw {
                     self.errors.push("UNSUPPORTED slice pattern (only `_` and plain identifiers, no rest pattern)".into());
                 }
             }
+            // R15b: `match E { &[a, b, c] => A, _ => B }` -> `{ let __sl = E; if __sl.len() == 3 { let a = __sl[0]; ..; A } else { B } }`
+            // (a `&[..]` pattern binds the elements by value, so they are Copy)
+            Expr::Match(m) if m.arms.len() == 2 && m.arms[0].guard.is_none() && matches!(&m.arms[1].pat, syn::Pat::Wild(_))
+                && matches!(&m.arms[0].pat, syn::Pat::Reference(r) if matches!(&*r.pat, syn::Pat::Slice(_))) => {
+                let scrut = (*m.expr).clone();
+                let ps = if let syn::Pat::Reference(r) = &m.arms[0].pat { if let syn::Pat::Slice(ps) = &*r.pat { ps.clone() } else { unreachable!() } } else { unreachable!() };
+                let n = ps.elems.len();
+                let mut lets: Vec<Stmt> = vec![]; let mut ok = true;
+                for (k, el) in ps.elems.iter().enumerate() {
+                    match el {
+                        syn::Pat::Wild(_) => {}
+                        syn::Pat::Ident(pi) if pi.subpat.is_none() && pi.by_ref.is_none() => { let id = &pi.ident; lets.push(parse_quote!(let #id = __sl[#k];)); }
+                        _ => ok = false,
+                    }
+                }
+                if ok {
+                    self.bump("R15");
+                    let a = (*m.arms[0].body).clone(); let b = (*m.arms[1].body).clone();
+                    // (a `match` with a binding arm keeps the scrutinee's temporaries alive exactly as the original match does)
+                    let mut ne: Expr = parse_quote!(match #scrut { __sl => if __sl.len() == #n { #(#lets)* #a } else { #b } });
+                    visit_mut::visit_expr_mut(self, &mut ne);
+                    *e = ne;
+                    return;
+                }
+                self.errors.push("UNSUPPORTED slice pattern in match (only `_` and plain identifiers, no rest pattern)".into());
+            }
             // R2: for -> loop + match over a shim iterator
             Expr::ForLoop(fl) => {
                 let n = self.loop_no; self.loop_no += 1; self.bump("R2");
@@ -481,6 +507,26 @@ impl VisitMut for Rw {
                             self.visit_expr_mut(&mut ne);
                             *e = ne;
                             return;
+                        }
+                    }
+                }
+            }
+        }
+        // R33: `X.split(C).map(F).collect::<Option<Vec<_>>>()` -> `split_map_collect_opt(&X, C, F)` (one shim with the semantics of the chain:
+        //      F applied to the pieces in order, None as soon as one piece gives None)
+        if let Expr::MethodCall(mc) = e {
+            if mc.method == "collect" && mc.turbofish.as_ref().map(|t| t.to_token_stream().to_string().replace(' ', "")).as_deref() == Some("::<Option<Vec<_>>>") {
+                if let Expr::MethodCall(m2) = &*mc.receiver {
+                    if m2.method == "map" && m2.args.len() == 1 {
+                        if let Expr::MethodCall(m3) = &*m2.receiver {
+                            if m3.method == "split" && m3.args.len() == 1 {
+                                let x = (*m3.receiver).clone(); let c = m3.args[0].clone(); let f = m2.args[0].clone();
+                                self.bump("R33");
+                                let mut ne: Expr = parse_quote!(split_map_collect_opt(&#x, #c, #f));
+                                if let Expr::Call(call) = &mut ne { for a in call.args.iter_mut() { if matches!(a, Expr::Closure(_)) { self.closure_label = Some("map".to_string()); } self.visit_expr_mut(a); self.closure_label = None; } }
+                                *e = ne;
+                                return;
+                            }
                         }
                     }
                 }
